@@ -39,11 +39,11 @@ theorem C14_prefix (chk dbg : Bool) (bs : List Nat) (b : Bitmap)
   strict_prefix_eof _ (mono_deserializeG chk dbg) bs b h k hk
 
 /-- Every strict prefix of a serialisation the crate writes is an error (EOF), for both decoders. -/
-theorem C14_prefix_serialize (chk dbg : Bool) (b : Bitmap) (h : BitmapWF b) (k : Nat)
+theorem C14_prefix_serialize (chk dbg : Bool) (b : Bitmap) (h : Bitmap.WF b) (k : Nat)
     (hk : k < (Bitmap.serialize b).length) :
     deserialize chk dbg ((Bitmap.serialize b).take k) = .error .eof := by
   have hd : deserialize chk dbg (Bitmap.serialize b) = .ok (b, []) := by
-    have := deserialize_serialize chk dbg b h []
+    have := deserialize_serialize chk dbg b h.toCodec []
     simpa using this
   exact C14_prefix chk dbg _ b hd k hk
 
